@@ -177,7 +177,7 @@ def case(fam, geometry, rep):
             # "the first points of the list" as point numbers, as many as it takes to complete a face: numbers are positions in the
             # point list, whether or not the points before them belong to cells (first mask of the case: a misreading that is loud for
             # other masks is silent for small numbers)
-            first = np.arange(min(max(f) for f in own) + 1 + int(rng.integers(0, 3)))
+            first = np.arange(min(mesh.npoints, min(max(f) for f in own) + 1 + int(rng.integers(0, 3))))  # (a one-cell body has few points)
             for s_ in (True, False):
                 rbm = R(mesh, only_surface=s_, mask=first)
                 n_expect = sum(1 for f in (own_once if s_ else own) if f <= set(first.tolist()))
